@@ -14,7 +14,7 @@ BOUNDS = ['mod:m_bound_spec', 'fn:Predicate::flip', 'fn:Bound::upper', 'fn:Bound
 RANGE_SPEC = ['mod:m_range_spec']
 SAT = ['fn:BoundSet::satisfies', 'fn:Range::satisfies', 'fn:Version::satisfies']
 DESUGAR_FNS = ['caret_desugar', 'partial_desugar', 'tilde_desugar', 'hyphen_desugar'] + ['primitive_desugar_' + op for op in ('Exact', 'GreaterThan', 'GreaterThanEquals', 'LessThan', 'LessThanEquals')]
-DESUGAR = ['clauses:' + f for f in DESUGAR_FNS] + ['fn:Partial::normalize', 'fn:Version::from@m_desugar', 'fn:Version::from@m_version']
+DESUGAR = ['clauses:' + f for f in DESUGAR_FNS] + ['fn:Partial::normalize', 'fn:Version::from@m_desugar', 'fn:Version::from@m_version', 'fn:number_check']
 FROM_U64 = ['fn:Version::from@m_version']
 
 TEXT_SHELL = 'winnow text layer (tokenisation of a range / version text into operator + Partial values, `separated`, `alt`, `garbage`) is not under contract: the property is decided at AST level'
@@ -23,9 +23,9 @@ STD = 'std axioms A1-A12 of DESIGN.md 2.4 (Box, cmp::max/min for a lawful Ord, V
 PROPS = {
     'C01': dict(
         title='Range satisfaction follows npm range semantics (AST level)',
-        obligations=ORDER + BOUNDS + SAT + RANGE_SPEC + ['mod:m_npm', 'fn:BoundSet::intersect', 'fn:intersect_all'] + DESUGAR + ['fn:lemma_c01_alternative', 'fn:lemma_c01_range'],
+        obligations=ORDER + BOUNDS + SAT + RANGE_SPEC + ['mod:m_npm', 'fn:BoundSet::intersect', 'fn:intersect_all'] + DESUGAR + ['fn:range_set_check', 'fn:lemma_c01_alternative', 'fn:lemma_c01_range'],
         assumptions=[TEXT_SHELL, STD, 'node-semver README / range.js 7.6.2 desugaring tables transcribed by hand into npm_spec.rs; `*` is `>=0.0.0` as the README states (node\'s internal `>=0.0.0 -> *` shortcut is not modelled)'],
-        not_decided=['text -> (operator, Partial) tokenisation incl. leading zeros, `v` prefix, blanks after operators, garbage tokens', 'that Range::parse fails only when no alternative is left (range_set closure not extracted)'],
+        not_decided=['text -> (operator, Partial) tokenisation incl. leading zeros, `v` prefix, blanks after operators, garbage tokens: covered by the bounded stand-in only'],
         witness='c01',
     ),
     'C02': dict(
